@@ -19,10 +19,20 @@ var findings = []struct{ fp, avoid string }{
 
 // applyKnown excludes, by construction, the history classes of findings that
 // are recorded as open (see known_findings.json).
-func applyKnown(rec *ev.Recorder, w *drv.World) {
+func applyKnown(w *drv.World) {
 	for _, f := range findings {
-		if rec.Known(f.fp) {
+		if ev.IsOpen("C02", f.fp) {
 			w.Avoid[f.avoid] = true
+		}
+	}
+}
+
+// reportKnown records which recorded findings the generator actually ran into.
+func reportKnown(rec *ev.Recorder, w *drv.World) {
+	for _, f := range findings {
+		if n := w.Excluded[f.avoid]; n > 0 {
+			rec.Known(f.fp)
+			rec.Excluded(int64(n))
 		}
 	}
 }
